@@ -8,8 +8,9 @@ RL_PER_MS = 2700          # z3 resource units per millisecond on the reference m
 
 def check_one(hyps, goal, axioms, timeout_ms, want_model=False, seed=0):
     """the budget is z3's deterministic resource limit (rlimit), sized as `timeout_ms` on an idle reference machine; the wall-clock timeout is
-    only a safety net five times as long - so a verdict does not depend on how busy the machine is"""
-    s = Solver(); s.set('rlimit', int(timeout_ms * RL_PER_MS)); s.set('timeout', int(timeout_ms * 5))
+    only a safety net thirty times as long (twenty checks side by side on sixteen cores slow every process down by a factor of twenty) - so a verdict does
+    not depend on how busy the machine is"""
+    s = Solver(); s.set('rlimit', int(timeout_ms * RL_PER_MS)); s.set('timeout', int(timeout_ms * 30))
     if seed: s.set('random_seed', seed)
     seen = set(); uniq = []
     for f in list(axioms) + list(hyps):          # the same clause often reaches a query several times (an invariant over fields no call has changed): one copy is enough
